@@ -9,12 +9,23 @@ per op; after each op the loop runs to quiescence and the harness records, for t
 addressed: the `ConnectionStateChangedEvent`s / `MessageReceivedEvent`s / `PeerInitializedEvent`s and
 socket writes in emission order, the results of attempt / send tasks, `CannotConnect` seen by the
 server; and globally: `Network.peer_connections`, every connection's `state`, every socket's openness.
-The same op list goes through the Lean driver (`Driver/C10.lean`, executing `Model/Conn.lean`).
+The same op list goes through the Lean driver (`Driver/C10.lean`, executing `Model/Conn.lean`): every op as a
+fine-grained step (it stops at the first state notification) followed by one `noteA` / `noteC` / `parkA` / `parkC` line
+per thing the application listener did during that op (returned at once, suspended, was released) — `_model_groups`.
 
 case = {'kind': str, 'server': bool, 'ops': [op...], 'cfg'?: {'obfuscate': 0|1, 'mode': 'fallback'|'race',
                                                              'monitor_only': bool}}
-  op = ['new', origin, typF, slow, obf] | ['at', i, name, arg?] | ['net', 'disconnect', new?...]
+  op = ['new', origin, typF, slow, obf] | ['at', i, name, arg?] | ['net', 'disconnect', new?...] | ['gate', arms]
     origin: direct | back | incoming | server | api (public `create_peer_connection`; monitor only)
+    slow: what wait_closed() of the socket does: 0 returns, 1 suspends (closeDone release / timeout), 2 the peer has stopped
+         reading with output still queued — close() leaves the transport alive and writable until `unstall` (monitor only),
+         3 raises at once (monitor only)
+    ['gate', [[i, STATE, mode], ...]]: from now on an application listener of ConnectionStateChangedEvent (registered behind
+         the recorder) suspends at the STATE notification of connection i (mode 'park'; released by ['at', i, 'release', STATE])
+         or calls disconnect() / send_message() / send_data() from inside it (mode 'act:disconnect|send|sendData'); replaces
+         the previous arms (harness only: not a step of the model).  The same list as case['gate'] arms the listener from the start.
+    raw data calls of a file connection: ['at', i, 'sendData', ok|block|fail] | 'recvData' | 'data' (raw bytes from the peer)
+         and, monitor only, 'sendFile' | 'recvFile' | 'recvEof' | 'recvEofQuiet' | 'unstall' | ['closeDone', 'raise']
     obf: 0 regular port, 1 obfuscated port, 2 both ports advertised (back: in the ConnectToPeer message; direct / api:
          the address is looked up with GetPeerAddress), 3 / 4 (direct / api): looked up, regular / obfuscated port only
     ['at', i, 'burst', [[name, arg?], ...]]: several calls / events in ONE loop iteration (no quiescent point between)
@@ -57,6 +68,11 @@ KNOWN_SITES = frozenset([
     'connection.py:_message_reader_loop>start', 'connection.py:_read_message>readexactly', 'connection.py:_send>drain',
     'connection.py:accept>start', 'connection.py:connect>open_connection', 'connection.py:disconnect>start',
     'connection.py:disconnect>wait_closed', 'connection.py:send_message>start',
+    'connection.py:disconnect>sleep',     # the single yield on the writer-already-closing branch (never parked at quiescence)
+    'network.py:on_state_changed>emit',   # a listener of a state notification has suspended (att = note… / cph = note…)
+    # the raw data calls of file connections (first step not yet run; parked in the stream read / in drain())
+    'connection.py:send_data>start', 'connection.py:receive_data>start', 'connection.py:_read>read',
+    'connection.py:send_file>start', 'connection.py:receive_file>start', 'connection.py:receive_until_eof>start',
     'network.py:_create_peer_connection_race>future', 'network.py:_create_peer_connection_race>wait',
     'network.py:_get_peer_address>future', 'network.py:_handle_connect_to_peer>start',
     'network.py:_make_direct_connection>start', 'network.py:_make_indirect_connection>start',
@@ -82,6 +98,20 @@ class _Hang(BaseException):
     pass
 
 
+class _FakeFile:
+    """what send_file / receive_file need of an aiofiles handle"""
+
+    def __init__(self, chunks):
+        self.chunks = list(chunks)
+        self.written = bytearray()
+
+    async def read(self, n=-1):
+        return self.chunks.pop(0) if self.chunks else b''
+
+    async def write(self, data):
+        self.written += data
+
+
 class _Slot:
     def __init__(self, idx, origin, typF, slow, obf):
         self.idx, self.origin, self.typF, self.slow, self.obf = idx, origin, typF, slow, obf
@@ -94,6 +124,7 @@ class _Slot:
         self.sends: list = []        # [task, reported]
         self.queued: list = []       # [queue_message task, reported]
         self.raws: list = []         # [task of a raw data call (send_data / receive_data / send_file / ...), reported, kind]
+        self.acts: list = []         # result tokens of the calls a listener made from inside a notification
         self.ticket = 100 + idx
         self.remote_closed = False   # the remote end closed/reset the socket while the library was reading/draining
 
@@ -231,6 +262,8 @@ def _run_impl(case: dict) -> dict:
                         return
                     lab, state = idx_of(conn), ev.state.name
                     mode = self.armed.get((lab, state))
+                    if mode == 'act:sendData' and getattr(conn, 'connection_type', '') != 'F':
+                        mode = None           # send_data is a call of file connections
                     if mode is None:
                         self.log.append([opno[0], lab, state, 'pass'])
                         self.hook(conn, lab, state)
@@ -243,17 +276,25 @@ def _run_impl(case: dict) -> dict:
                             if what == 'disconnect':
                                 await conn.disconnect(CloseReason.REQUESTED)
                             elif what == 'send':
-                                mark(lab, 'call:send')
-                                await conn.send_message(PeerSharesRequest.Request() if not isinstance(conn, ServerConnection)
-                                                        else Ping.Request())
+                                try:
+                                    await conn.send_message(PeerSharesRequest.Request()
+                                                            if not isinstance(conn, ServerConnection) else Ping.Request())
+                                    tok = 'send:ret'
+                                except ConnectionWriteError:
+                                    tok = 'send:err'
+                                if slot is not None:
+                                    slot.acts.append(tok)
                             elif what == 'sendData':
                                 k = raw_id[0] = raw_id[0] + 1
                                 mark(lab, f'call:raw:{k}:sendData')
                                 try:
                                     await conn.send_data(b'D' * 32)
-                                    mark(lab, f'done:raw:{k}:ret')
+                                    tok = 'ret'
                                 except ConnectionWriteError:
-                                    mark(lab, f'done:raw:{k}:err')
+                                    tok = 'err'
+                                mark(lab, f'done:raw:{k}:{tok}')
+                                if slot is not None:
+                                    slot.acts.append('send:' + tok)
                             else:
                                 raise ValueError(mode)
                         except (ConnectionWriteError, ConnectionReadError):
@@ -357,7 +398,11 @@ def _run_impl(case: dict) -> dict:
                 return fn.accept_tasks.get(slot.key)
 
             def user_send_parked(slot):
-                return any(not t.done() for t, _ in slot.sends)
+                return any(not t.done() for t, _ in slot.sends) or any(
+                    not e[0].done() and e[2] in ('sendData', 'sendFile') for e in slot.raws)
+
+            def direct_sends(slot):
+                return [t for t, _ in slot.sends] + [e[0] for e in slot.raws if e[2] in ('sendData', 'sendFile')]
 
             def queue_parked(slot):
                 return any(not t.done() for t, _ in slot.queued)
@@ -373,11 +418,11 @@ def _run_impl(case: dict) -> dict:
 
             def raw_reading(slot) -> bool:
                 """a raw read of the slot is parked in the stream reader"""
-                for t in raw_parked(slot, RAW_READS):
-                    names = [n for n, _ in _frames_of(t)]
-                    if '_read' in names:
-                        return True
-                return False
+                return any(in_stream_read(t) for t in raw_parked(slot, RAW_READS))
+
+            def in_stream_read(task) -> bool:
+                """the task is parked inside StreamReader.read / readexactly (not, e.g., in a listener it notified)"""
+                return '_wait_for_data' in [n for n, _ in _frames_of(task)]
 
             def attempt_send_timer(slot):
                 """the send timer of the task that sets the connection up (not of a send / queue_message call)"""
@@ -458,8 +503,10 @@ def _run_impl(case: dict) -> dict:
                     return slot.origin != 'incoming' and slot.task is not None and not slot.task.done()
                 at = accept_task(slot)
                 awaiting = (slot.origin == 'incoming' and at is not None and not at.done() and c is not None
-                            and c.connection_state == PeerConnectionState.AWAITING_INIT and sock_open(slot))
-                reader = c is not None and c._reader_task is not None and not c._reader_task.done() and sock_open(slot)
+                            and c.connection_state == PeerConnectionState.AWAITING_INIT and sock_open(slot)
+                            and in_stream_read(at))     # (parked in the read, not in a listener)
+                reader = (c is not None and c._reader_task is not None and not c._reader_task.done() and sock_open(slot)
+                          and in_stream_read(c._reader_task))
                 if name == 'release':
                     return gate.is_parked(slot.idx, arg)
                 if name in ('firstFrame', 'frame', 'partialEof', 'eof', 'reset', 'data') and slot.remote_closed:
@@ -481,7 +528,7 @@ def _run_impl(case: dict) -> dict:
                 if name in RAW_SENDS or name in RAW_READS:
                     # the raw data paths of a file connection (what the transfer code calls once the connection is
                     # initialised); one parked call of each direction at a time
-                    if c is None or c.state == ConnectionState.UNINITIALIZED or not slot.typF:
+                    if c is None or c.state == ConnectionState.UNINITIALIZED or getattr(c, 'connection_type', '') != 'F':
                         return False
                     if slot.origin == 'incoming' and c.connection_state == PeerConnectionState.AWAITING_INIT:
                         return False
@@ -529,7 +576,7 @@ def _run_impl(case: dict) -> dict:
                             return c is not None and attempt_send_timer(slot) is not None
                         return (slot.task is not None and not slot.task.done()
                                 and find_timer(loop, c, 'send', slot.task) is not None)
-                    return any(not t.done() and find_timer(loop, c, 'send', t) is not None for t, _ in slot.sends)
+                    return any(not t.done() and find_timer(loop, c, 'send', t) is not None for t in direct_sends(slot))
                 if name == 'restart':
                     return (slot.origin == 'server' and c is not None and c.state == ConnectionState.CLOSED
                             and (slot.task is None or slot.task.done()) and not (w is not None and w.close_parked()))
@@ -668,8 +715,60 @@ def _run_impl(case: dict) -> dict:
                 elif name == 'closeDone':
                     if arg == 'timeout':
                         assert fire_timer(loop, c, 'close')
+                    elif arg == 'raise':
+                        # connection_lost(exc): wait_closed() raises what the transport died of
+                        if w.closing_stalled:
+                            w.stall = False
+                            w.closing_stalled = False
+                            w.reset()
+                        w.release_close(ConnectionResetError('connection lost (fake)'))
+                    elif w.closing_stalled:
+                        w.unstall()
                     else:
                         w.release_close()
+                elif name == 'unstall':
+                    w.unstall()
+                elif name == 'release':
+                    assert gate.release(slot.idx, arg)
+                elif name == 'data':
+                    libw(slot).peer.write(b'\x07' * 16)
+                elif name in RAW_SENDS or name in RAW_READS:
+                    k = raw_id[0] = raw_id[0] + 1
+                    if name in RAW_SENDS and w is not None and not w._closed:
+                        if arg == 'block':
+                            w.drain_block = True
+                        elif arg == 'fail':
+                            w.fail_after = len(w.sent)
+                    if name == 'sendData':
+                        coro = c.send_data(b'D' * 32)
+                    elif name == 'sendFile':
+                        coro = c.send_file(_FakeFile([b'F' * 16, b'F' * 16]))
+                    elif name == 'recvData':
+                        coro = c.receive_data(64)
+                    elif name == 'recvFile':
+                        ff = _FakeFile([])
+                        coro = c.receive_file(ff, 32)
+                    else:
+                        coro = c.receive_until_eof(raise_exception=(name == 'recvEof'))
+                    mark(slot.idx, f'call:raw:{k}:{name}')
+                    t = asyncio.ensure_future(coro)
+                    slot.raws.append([t, False, name, k])
+
+                    ff = ff if name == 'recvFile' else None
+
+                    def outcome(t, name=name, ff=ff):
+                        if t.cancelled():
+                            return 'cancelled'
+                        if t.exception() is not None:
+                            return 'err' if isinstance(t.exception(), (ConnectionWriteError, ConnectionReadError)) \
+                                else 'exc:' + type(t.exception()).__name__
+                        if name in RAW_SENDS:
+                            return 'ret'
+                        if name == 'recvFile':
+                            return 'data' if ff.written else 'none'
+                        return 'data' if t.result() else 'none'
+                    slot.raws[-1].append(outcome)
+                    t.add_done_callback(lambda t, i=slot.idx, k=k, outcome=outcome: mark(i, f'done:raw:{k}:{outcome(t)}'))
                 elif name == 'send':
                     if w is not None and not w._closed:
                         if arg == 'block':
@@ -697,7 +796,7 @@ def _run_impl(case: dict) -> dict:
                     elif arg:
                         assert fire_timer(loop, c, 'send', slot.task)
                     else:
-                        t = next(t for t, _ in slot.sends if not t.done() and find_timer(loop, c, 'send', t) is not None)
+                        t = next(t for t in direct_sends(slot) if not t.done() and find_timer(loop, c, 'send', t) is not None)
                         assert fire_timer(loop, c, 'send', t)
                 elif name == 'restart':
                     slot.task = asyncio.ensure_future(net.connect_server())
@@ -758,6 +857,18 @@ def _run_impl(case: dict) -> dict:
                             res.append('q:err')
                         else:
                             res.append('q:exc:' + type(t.exception()).__name__)
+                for ent in slot.raws:
+                    t = ent[0]
+                    if t.done() and not ent[1]:
+                        ent[1] = True
+                        out = ent[4](t)
+                        if ent[2] in RAW_SENDS:
+                            # a raw send is a direct send: same tokens as send_message (ret / err)
+                            res.append('send:' + out)
+                        elif out == 'data':
+                            res.append('recv:data')     # (a raw read that ends without data is not part of the line)
+                res += slot.acts
+                slot.acts = []
                 ccs = [r for r in server.received if isinstance(r, CannotConnect.Request)]
                 for r in ccs[seen_cc[0]:]:
                     res.append('cc' if r.ticket == slot.ticket else f'cc?{r.ticket}')
@@ -799,8 +910,12 @@ def _run_impl(case: dict) -> dict:
 
                 def obj_view(conn):
                     ws = fn.writers_of(conn) if conn is not None else []
-                    return (any((not w._closed) or w.close_parked() for w in ws),
-                            bool(conn is not None and fn.opening_by(conn)))
+                    # a task that is inside disconnect() / connect() of this connection and waits for a listener of the
+                    # CLOSING / CONNECTING notification it made: the close / the attempt is still in progress
+                    held = {e[1] for e in gate.parked if conn is not None and not e[2].done()
+                            and objs.get(id(conn), [None, None])[1] == e[0]}
+                    return (any((not w._closed) or w.close_parked() for w in ws) or 'CLOSING' in held,
+                            bool(conn is not None and fn.opening_by(conn)) or 'CONNECTING' in held)
                 for s in slots:
                     w = libw(s)
                     if w is not None and s.conn is not None and not owned(w, s.conn):
@@ -809,7 +924,8 @@ def _run_impl(case: dict) -> dict:
                     facts['conns'][str(s.idx)] = {
                         'origin': s.origin,
                         'open': bool(o_open or (w is not None and ((not w._closed) or w.close_parked()))),
-                        'ended_by_remote': bool(s.remote_closed and not (w is not None and w.close_parked())),
+                        'ended_by_remote': bool(s.remote_closed and not (w is not None and w.close_parked())
+                                                and not gate.is_parked(s.idx, 'CLOSING')),
                         'opening': bool(o_opening or (s.conn is None and parked_key(s) is not None
                                                       and s.task is not None and not s.task.done())),
                         'state': s.conn.state.name if s.conn is not None else None,
@@ -844,7 +960,11 @@ def _run_impl(case: dict) -> dict:
             executed, lines, facts_l, skipped = [], [], [], []
             for op in case['ops']:
                 opno[0] = len(executed)
-                if op[0] == 'new':
+                if op[0] == 'gate':
+                    # from now on the application listener suspends / acts at these notifications (harness only)
+                    gate.armed = {(g[0], g[1]): g[2] for g in op[1]}
+                    slot = None
+                elif op[0] == 'new':
                     _, origin, typF, slow, obf = op
                     if not new_enabled(origin, obf):
                         skipped.append(op)
@@ -897,8 +1017,9 @@ def _run_impl(case: dict) -> dict:
                 executed.append(op)
                 lines.append(line)
                 facts_l.append(facts)
-            keep = (obs, bus, net, srv_tasks, net_tasks)  # noqa: F841  (strong refs until here)
+            keep = (obs, gate, bus, net, srv_tasks, net_tasks)  # noqa: F841  (strong refs until here)
             return {'executed': executed, 'lines': lines, 'facts': facts_l, 'skipped': skipped, 'full': list(full),
+                    'gate': [list(e) for e in gate.log],
                     'hang': hang['hit'], 'sites': sorted(audit.sites),
                     'loop_exceptions': [e for e in loop.exceptions if e.get('type') not in (None, 'CancelledError')]}
         finally:
@@ -927,30 +1048,108 @@ def _run_impl(case: dict) -> dict:
 # model side
 # --------------------------------------------------------------------------------------------
 
-def _model_lines(executed: list) -> list[str]:
-    out = ['reset']
-    for op in executed:
-        if op[0] == 'new':
+UNMODELLED_OPS = ('sendFile', 'recvFile', 'recvEof', 'recvEofQuiet', 'unstall', 'cannotConnect', 'indirectTimeout')
+
+
+def _model_groups(case: dict, io: dict):
+    """The driver lines of a case, one group per executed op: the op itself (fine-grained: it stops at the first state
+    notification) followed by one line per thing the application listener did during that op, in order — `noteA` /
+    `noteC` when it returned (at once, or released by the schedule), `parkA` / `parkC` when it suspended, and the call
+    itself when it acted from inside the notification.  None = real code + monitor only (no model of these ops)."""
+    if (case.get('cfg') or {}).get('monitor_only'):
+        return None
+    executed = io['executed']
+    notes: dict = {}
+    for n, lab, state, kind in io.get('gate', []):
+        if lab == 'S':
+            continue                  # the server connection of a scenario that does not exercise it (never held)
+        if not isinstance(lab, int):
+            return None               # a connection object the scenario did not ask for
+        notes.setdefault(n, []).append((lab, state, kind))
+    armed = False
+    parked: dict = {}                 # slot -> number of listener invocations that are suspended
+    cfg_of: dict = {}                 # how the init write of slot i behaves
+    origin_of: list = []
+    groups = []
+    for n, op in enumerate(executed):
+        ls: list = []
+        skip_notes = False
+        if op[0] == 'gate':
+            armed = bool(op[1])
+        elif op[0] == 'new':
             _, origin, typF, slow, _obf = op
-            out.append(f'new {origin} {int(bool(typF))} {int(bool(slow))}')
+            if slow not in (0, 1) or origin == 'api':
+                return None
+            origin_of.append(origin)
+            ls.append(f'new {origin} {int(bool(typF))} {int(slow)}')
         elif op[0] == 'net':
             # Network.disconnect() = cancel the running connect-back tasks, then disconnect() on the server connection
             # and on every connection registered at that moment; a connection created behind the call comes last
-            ls = [f'at {i} {what}' for i, what in op[2]]
+            ls += [f'at {i} {what}' for i, what in op[2]]
             if len(op) > 3:
                 origin, typF, slow, _obf = op[3]
-                ls.append(f'new {origin} {int(bool(typF))} {int(bool(slow))}')
-            out.append('\n'.join(ls))
+                if slow not in (0, 1):
+                    return None
+                origin_of.append(origin)
+                ls.append(f'new {origin} {int(bool(typF))} {int(slow)}')
         else:
             _, i, name = op[:3]
             arg = op[3] if len(op) > 3 else None
-            if name == 'burst':
+            if name in UNMODELLED_OPS or (name == 'closeDone' and arg == 'raise') or \
+                    (name == 'firstFrame' and arg == 'pierceApi'):
+                return None
+            if name == 'connectOk':
+                cfg_of[i] = arg
+            if name == 'restart' and parked.get(i):
+                return None           # the server connection is connected again while a listener is still busy with the
+                #                       previous CLOSED notification: two overlapping lives (C16 covers it; monitor only)
+            if name == 'release':
+                pass
+            elif name == 'burst':
                 # calls made in one loop iteration: the tasks they create take their first step in that order, and each
-                # runs up to its first real suspension = the calls one after the other
-                out.append('\n'.join(_op_line(i, sub[0], sub[1] if len(sub) > 1 else None) for sub in arg))
+                # runs up to its first real suspension = the calls one after the other, every notification passing
+                if armed:
+                    return None
+                ls += ['a' + _op_line(i, sub[0], sub[1] if len(sub) > 1 else None) for sub in arg]
+                skip_notes = True
             else:
-                out.append(_op_line(i, name, arg))
-    return out
+                ls += _op_line(i, name, arg).split('\n')
+        if not skip_notes:
+            for lab, state, kind in notes.get(n, []):
+                x = 'A' if state in ('CONNECTING', 'CONNECTED') else 'C'
+                mode = f' {cfg_of.get(lab) or "ok"}' if x == 'A' else ''
+                if kind in ('pass', 'resume'):
+                    ls.append(f'at {lab} note{x}{mode}')
+                    if kind == 'resume':
+                        parked[lab] = parked.get(lab, 0) - 1
+                elif kind == 'park':
+                    ls.append(f'at {lab} park{x}')
+                    parked[lab] = parked.get(lab, 0) + 1
+                elif kind == 'cancel':
+                    parked[lab] = parked.get(lab, 0) - 1
+                    # (the op that cancelled the task says what follows)
+                elif kind.startswith('act:'):
+                    # the call the listener makes from inside the notification (at a CLOSING / CLOSED notification none
+                    # of these calls suspends: the listener does not count as suspended).  A disconnect() made from inside
+                    # a CONNECTED notification that itself suspends (slow wait_closed, a nested listener that suspends)
+                    # turns the task that reported CONNECTED into the closing task: monitor only
+                    if kind == 'act:disconnect' and x == 'A':
+                        rest = notes.get(n, [])
+                        at = rest.index((lab, state, kind))
+                        done = next((j for j in range(at + 1, len(rest)) if rest[j] == (lab, state, 'pass')), None)
+                        if done is None or any(r[2] == 'park' for r in rest[at + 1:done]):
+                            return None
+                    ls.append(f'at {lab} ' + {'disconnect': 'disconnect REQUESTED', 'send': 'send ok',
+                                              'sendData': 'sendData ok'}[kind[4:]])
+                else:
+                    raise ValueError(kind)
+        if op[0] == 'net':
+            # the harness reports the events of a Network.disconnect() grouped by connection: the connections do not
+            # interact, so the lines can be grouped the same way (the order per connection is kept)
+            newest = len(origin_of) - 1
+            ls = sorted(ls, key=lambda l: newest if l.startswith('new ') else int(l.split()[1]))
+        groups.append(ls)
+    return groups
 
 
 REASONS = ('UNKNOWN', 'CONNECT_FAILED', 'REQUESTED', 'READ_ERROR', 'WRITE_ERROR', 'TIMEOUT', 'EOF')
@@ -963,7 +1162,7 @@ def _op_line(i, name, arg) -> str:
         n = arg if isinstance(arg, int) else 1
         # n concurrent calls issued in the same loop iteration = n calls one after the other
         return f'at {i} disconnect' + f'\nat {i} disconnect' * (n - 1)
-    if name in ('closeDone', 'connectFail'):
+    if name in ('closeDone', 'connectFail', 'recvData', 'data'):
         return f'at {i} {name}'
     if name in ('frame', 'sendTimeout'):
         return f'at {i} {name} {int(bool(arg))}'
@@ -976,6 +1175,9 @@ def _merge_lines(group: list[str]) -> str:
     """n model answers of `disconnect n` -> one line (events concatenated, last state)."""
     if len(group) == 1:
         return group[0]
+    bad = next((g for g in group if g in ('rejected', 'bad-op')), None)
+    if bad is not None:
+        return bad
     evs, ress, last = [], [], None
     for g in group:
         parts = dict(p.split('=', 1) for p in g.split(' ') if '=' in p)
@@ -1016,8 +1218,19 @@ def _monitor(case: dict, impl: dict) -> list[Violation]:
         is_server = origin_of.get(i) == 'server'
         last = None
         closed_seen = 0
+        raw_calls: dict = {}          # id of a raw data call -> (kind, CLOSED had been reported when it was made)
         for (opno, tok) in evs:
             name = tok.split(':')[0]
+            if name == 'call' and tok.startswith('call:raw:'):
+                _, _, k, kind = tok.split(':')
+                raw_calls[k] = (kind, bool(closed_seen))
+            elif name == 'done' and tok.startswith('done:raw:'):
+                k, out = tok.split(':')[2], tok.split(':', 3)[3]
+                kind, after = raw_calls.get(k, (None, False))
+                # (a raw send made after CLOSED is judged like every send: by the bytes that reach the transport — `wrote`)
+                if after and kind not in ('sendData', 'sendFile') and out == 'data':
+                    add('C10-data-after-closed', f'connection {i}: {kind}() called after CLOSED had been reported returned '
+                        'data of the connection', [t for _, t in evs], 'nothing of the connection is delivered after CLOSED')
             if name in RANK:
                 if last is not None and RANK[name] <= RANK[last]:
                     if is_server and last == 'CLOSED' and name == 'CONNECTING':
@@ -1322,6 +1535,192 @@ def _queue_grid() -> list[dict]:
     return cases
 
 
+# --------------------------------------------------------------------------------------------
+# families added for the classes "events completing while a state listener of this connection is suspended" and
+# "raw data paths of file connections"
+# --------------------------------------------------------------------------------------------
+
+# everything the environment / the application can do to a connection (what is not enabled at that moment is skipped)
+MEANWHILE = [
+    ['connectOk', 'ok'], ['connectOk', 'block'], ['connectOk', 'fail'], ['connectFail'], ['connectTimeout'],
+    ['cancelAttempt'], ['firstFrame', 'initP'], ['firstFrame', 'initF'], ['firstFrame', 'pierceUnknown'],
+    ['firstFrame', 'undecodable'], ['frame', 1], ['frame', 0], ['partialEof'], ['eof'], ['reset'], ['readTimeout'],
+    ['disconnect', 'REQUESTED'], ['disconnect', 'EOF'], ['disconnect', 2], ['closeDone', 'release'],
+    ['closeDone', 'timeout'], ['closeDone', 'raise'], ['send', 'ok'], ['send', 'block'], ['send', 'fail'], ['drainOk'],
+    ['sendTimeout', 0], ['sendTimeout', 1], ['queue', 'ok'], ['queue', 'block'], ['queue', 'fail'], ['queueTimeout'],
+    ['sendData', 'ok'], ['sendData', 'block'], ['sendData', 'fail'], ['recvData'], ['data'], ['sendFile', 'ok'],
+    ['recvFile'], ['recvEof'], ['recvEofQuiet'], ['unstall'], ['restart'], ['NET'],
+]
+RAW_PROBES = [['sendData', 'ok'], ['recvData'], ['data'], ['sendFile', 'ok'], ['recvFile'], ['data'], ['data'],
+              ['recvEofQuiet'], ['data'], ['unstall'], ['sendData', 'ok'], ['recvData'], ['data'], ['recvEof']]
+RAW_PROBES_M = [['sendData', 'ok'], ['recvData'], ['data'], ['sendData', 'block'], ['drainOk'], ['recvData'], ['eof'],
+                ['sendData', 'ok'], ['recvData']]
+STATES = ('CONNECTING', 'CONNECTED', 'CLOSING', 'CLOSED')
+
+
+def _at(o, i=0):
+    return ['net', 'disconnect'] if o == ['NET'] else ['at', i] + o
+
+
+def _release_all(i=0, rounds=2):
+    return [['at', i, 'release', s_] for _ in range(rounds) for s_ in STATES]
+
+
+def _held_bases() -> list:
+    """(name, ops, is F, triggers): states a connection can be in, and the ops (`triggers`) whose handling makes the
+    library report a state"""
+    out = []
+    closers_p = [['disconnect', 'REQUESTED'], ['disconnect', 'EOF'], ['eof'], ['reset'], ['partialEof'], ['readTimeout'],
+                 ['send', 'fail'], ['queue', 'fail'], ['NET']]
+    closers_f = [['disconnect', 'REQUESTED'], ['sendData', 'fail'], ['NET']]
+    for origin in ('direct', 'back'):
+        for typF in (0, 1):
+            for slow in ((0, 1) if not typF else (0, 1, 2, 3)):
+                new = ['new', origin, typF, slow, slow % 2]
+                n = f'{origin}-{"F" if typF else "P"}-close{slow}'
+                out.append((n + ':none', [], typF, [new]))
+                out.append((n + ':opening', [new], typF,
+                            [_at(o) for o in (['connectOk', 'ok'], ['connectOk', 'block'], ['connectOk', 'fail'],
+                                              ['connectFail'], ['connectTimeout'], ['cancelAttempt'],
+                                              ['disconnect', 'REQUESTED'], ['NET'])]))
+                out.append((n + ':init-parked', [new, _at(['connectOk', 'block'])], typF,
+                            [_at(o) for o in (['disconnect', 'REQUESTED'], ['cancelAttempt'], ['reset'], ['sendTimeout', 1],
+                                              ['NET'])]))
+                est = [new, _at(['connectOk', 'ok'])]
+                if not typF:
+                    out.append((n + ':established', est, typF, [_at(o) for o in closers_p]))
+                    out.append((n + ':send-parked', est + [_at(['send', 'block'])], typF,
+                                [_at(o) for o in (['disconnect', 'REQUESTED'], ['eof'], ['reset'], ['sendTimeout', 0], ['NET'])]))
+                    out.append((n + ':queue-parked', est + [_at(['queue', 'block'])], typF,
+                                [_at(o) for o in (['disconnect', 'REQUESTED'], ['eof'], ['reset'], ['queueTimeout'], ['NET'])]))
+                else:
+                    out.append((n + ':established', est, typF, [_at(o) for o in closers_f]))
+                    out.append((n + ':recv-parked', est + [_at(['recvData'])], typF,
+                                [_at(o) for o in (['disconnect', 'REQUESTED'], ['eof'], ['reset'], ['readTimeout'], ['NET'])]))
+                    out.append((n + ':data-parked', est + [_at(['sendData', 'block'])], typF,
+                                [_at(o) for o in (['disconnect', 'REQUESTED'], ['reset'], ['sendTimeout', 0], ['NET'])]))
+    for slow in (0, 1, 2, 3):
+        new = ['new', 'incoming', 0, slow, slow % 2]
+        n = f'incoming-close{slow}'
+        out.append((n + ':none', [], 0, [new]))
+        if slow < 2:
+            out.append((n + ':awaiting', [new], 0,
+                        [_at(o) for o in (['disconnect', 'REQUESTED'], ['eof'], ['reset'], ['readTimeout'],
+                                          ['firstFrame', 'undecodable'], ['firstFrame', 'pierceUnknown'], ['NET'])]))
+            out.append((n + ':initP', [new, _at(['firstFrame', 'initP'])], 0, [_at(o) for o in closers_p]))
+            out.append((n + ':pierceP', [new, _at(['firstFrame', 'pierceP'])], 0,
+                        [_at(o) for o in (['disconnect', 'REQUESTED'], ['eof'], ['send', 'fail'])]))
+        out.append((n + ':initF', [new, _at(['firstFrame', 'initF'])], 1, [_at(o) for o in closers_f]))
+        out.append((n + ':initF:recv-parked', [new, _at(['firstFrame', 'initF']), _at(['recvData'])], 1,
+                    [_at(o) for o in (['disconnect', 'REQUESTED'], ['eof'], ['reset'], ['readTimeout'])]))
+    for slow in (0, 1):
+        new = ['new', 'server', 0, slow, 0]
+        n = f'server-close{slow}'
+        out.append((n + ':none', [], 0, [new]))
+        out.append((n + ':opening', [new], 0,
+                    [_at(o) for o in (['connectOk', 'ok'], ['connectFail'], ['cancelAttempt'], ['disconnect', 'REQUESTED'])]))
+        out.append((n + ':established', [new, _at(['connectOk', 'ok'])], 0,
+                    [_at(o) for o in (['disconnect', 'REQUESTED'], ['eof'], ['reset'], ['send', 'fail'], ['queue', 'fail'])]))
+    return out
+
+
+def _held_grid() -> list[dict]:
+    """For every state a connection can be in (`_held_bases`) and every op that makes the library report a state there
+    (the trigger): an application listener of ConnectionStateChangedEvent SUSPENDS at one of the notifications
+    (CONNECTING / CONNECTED / CLOSING / CLOSED, or CLOSING and CLOSED both) — or calls disconnect() / send from inside
+    it —, one event of MEANWHILE is delivered while it is suspended, the listener is released, and the connection is
+    probed (further completions, sends, raw data calls, disconnect)."""
+    cases = []
+    for bname, base, typF, triggers in _held_bases():
+        server = bname.startswith('server')
+        for trig in triggers:
+            tn = '-'.join(str(x) for x in trig[1:] if not isinstance(x, int) or trig[0] != 'at') if trig[0] != 'new' else 'new'
+            if trig[0] == 'new':
+                holds = [('CONNECTING',), ('CONNECTED',)] if trig[1] != 'incoming' else [('CONNECTED',)]
+            elif trig[0] == 'at' and trig[2] == 'connectOk':
+                holds = [('CONNECTED',), ('CONNECTED', 'CLOSING'), ('CONNECTED', 'CLOSED')]
+            else:
+                holds = [('CLOSING',), ('CLOSED',), ('CLOSING', 'CLOSED')]
+            modelled = 'close0' in bname or 'close1' in bname
+            tail = ([_at(['closeDone', 'release']), ['gate', []]] + _release_all()
+                    + [_at(o) for o in ((RAW_PROBES_M if modelled else RAW_PROBES) if typF else []) + PROBES])
+            for hold in holds:
+                arm = ['gate', [[0, h, 'park'] for h in hold]]
+                for ev in MEANWHILE:
+                    if ev == ['restart'] and not server:
+                        continue
+                    cases.append({'kind': f'held:{bname}:{tn}:{"+".join(hold)}:{"-".join(str(x) for x in ev)}',
+                                  'server': server,
+                                  'ops': base + [arm, trig, _at(ev)] + [_at(['release', hold[0]])] + tail})
+                # two events meanwhile, the second notification released in between
+                if len(hold) == 2:
+                    for ev in (['disconnect', 'REQUESTED'], ['send', 'ok'], ['sendData', 'ok'], ['connectOk', 'ok'],
+                               ['eof'], ['drainOk']):
+                        cases.append({'kind': f'held:{bname}:{tn}:{"+".join(hold)}:then:{"-".join(str(x) for x in ev)}',
+                                      'server': server,
+                                      'ops': base + [arm, trig, _at(['release', hold[0]]), _at(ev),
+                                                     _at(['release', hold[1]])] + tail})
+            # a peer that has stopped reading: the close runs into its timeout, the transport stays alive; a listener of
+            # CLOSED suspends (raw calls meanwhile) or makes a raw send itself
+            if typF and 'close2' in bname and holds[0][0] == 'CLOSING':
+                for ev in (['sendData', 'ok'], ['recvData'], ['sendFile', 'ok'], ['recvFile'], ['recvEofQuiet']):
+                    cases.append({'kind': f'held:{bname}:{tn}:CLOSED:timeout-then:{"-".join(ev)}', 'server': server,
+                                  'ops': base + [['gate', [[0, 'CLOSED', 'park']]], trig, _at(['closeDone', 'timeout']),
+                                                 _at(ev), _at(['data']), _at(['data']), _at(['release', 'CLOSED'])] + tail})
+                cases.append({'kind': f'held:{bname}:{tn}:act:CLOSED:timeout-then:sendData', 'server': server,
+                              'ops': base + [['gate', [[0, 'CLOSED', 'act:sendData']]], trig,
+                                             _at(['closeDone', 'timeout'])] + tail})
+            # a listener that acts from inside the notification
+            for st in holds[0][:1] + (('CLOSING', 'CLOSED') if holds[0][0] != 'CLOSING' else ('CLOSED',)):
+                for act in ('disconnect', 'send') + (('sendData',) if typF else ()):
+                    cases.append({'kind': f'held:{bname}:{tn}:act:{st}:{act}', 'server': server,
+                                  'ops': base + [['gate', [[0, st, 'act:' + act]]], trig] + tail})
+    return cases
+
+
+def _held_core(c: dict) -> bool:
+    k = c['kind']
+    if ':timeout-then:' in k:
+        return True
+    return (':act:' in k or k.endswith((':disconnect-REQUESTED', ':connectOk-ok', ':sendData-ok', ':cancelAttempt'))
+            ) and 'close1' not in k and '-obf' not in k
+
+
+def _raw_grid() -> list[dict]:
+    """Raw data paths of file connections (send_data / send_file / receive_data / receive_file / receive_until_eof)
+    after every way of closing, wait_closed() returning, suspending, running into its 5 s timeout with a peer that has
+    stopped reading (the transport stays alive), or raising."""
+    cases = []
+    closers = [['disconnect', 'REQUESTED'], ['eof'], ['reset'], ['readTimeout'], ['sendData', 'fail'], ['sendTimeout', 0],
+               ['NET'], ['cancelAttempt']]
+    pend = [[], [['recvData']], [['sendData', 'block']], [['recvData'], ['sendData', 'block']], [['sendFile', 'block']],
+            [['recvFile']], [['recvEof']]]
+    setups = [('direct', lambda slow: [['new', 'direct', 1, slow, 0], ['at', 0, 'connectOk', 'ok']]),
+              ('back', lambda slow: [['new', 'back', 1, slow, 1], ['at', 0, 'connectOk', 'ok']]),
+              ('incoming', lambda slow: [['new', 'incoming', 0, slow, 0], ['at', 0, 'firstFrame', 'initF']]),
+              ('pierce', lambda slow: [['new', 'incoming', 0, slow, 1], ['at', 0, 'firstFrame', 'pierceF']])]
+    for sname, setup in setups:
+        for slow in (0, 1, 2, 3):
+            ends = [[]] if slow in (0, 3) else [[['closeDone', 'release']], [['closeDone', 'timeout']],
+                                                 [['closeDone', 'raise']]]
+            for p in pend:
+                for cl in closers:
+                    for end in ends:
+                        for mid in ([], [['sendData', 'ok']], [['recvData']]) if slow in (1, 2) else ([],):
+                            kind = (f'raw:{sname}-close{slow}:{"+".join(o[0] for o in p)}:'
+                                    f'{"-".join(str(x) for x in cl)}:{"+".join(o[0] for o in mid)}:'
+                                    f'{"-".join(str(x) for x in end[0]) if end else ""}')
+                            ops = setup(slow) + [_at(o) for o in p + [cl] + mid + end + RAW_PROBES + PROBES]
+                            cases.append({'kind': kind, 'server': False, 'ops': ops})
+                            if slow in (0, 1) and all(o[0] in ('sendData', 'recvData') for o in p) \
+                                    and end != [['closeDone', 'raise']]:
+                                # the same with the modelled calls only (send_data / receive_data / raw bytes)
+                                ops = setup(slow) + [_at(o) for o in p + [cl] + mid + end + RAW_PROBES_M + PROBES]
+                                cases.append({'kind': kind + ':core', 'server': False, 'ops': ops})
+    return cases
+
+
+
 def _queue_core(c: dict) -> bool:
     k = c['kind']
     return ((':q:' in k and k.endswith('drain@2')) or (':burst:' in k and k.endswith('+REQUESTED:'))
@@ -1434,34 +1833,69 @@ def _gen_random(rng: random.Random) -> dict:
     if monitor_only:
         cfg.update(mode=rng.choice(['fallback', 'race']), monitor_only=True)
         pool += [('cannotConnect', None), ('indirectTimeout', None), ('firstFrame', 'pierceApi')] * 3
+    # suspended / acting listeners of the state notifications, raw data calls on file connections
+    held = rng.random() < 0.35
+    if held:
+        pool = [p_ for p_ in pool if p_[0] != 'burst']       # (calls of one loop iteration are compared un-suspended)
+        pool += [('release', s_) for s_ in STATES for _ in range(3)]
+    pool += [('sendData', 'ok'), ('sendData', 'ok'), ('sendData', 'block'), ('sendData', 'fail'), ('recvData', None),
+             ('recvData', None), ('data', None), ('data', None)]
+    if monitor_only or rng.random() < 0.1:
+        pool += [('sendFile', 'ok'), ('recvFile', None), ('recvEof', None), ('recvEofQuiet', None), ('unstall', None),
+                 ('closeDone', 'raise')]
+        slows = [0, 1, 2, 3]
+    else:
+        slows = [0, 1]
+
+    def gate_op():
+        arms = []
+        for _ in range(rng.randint(0, 3)):
+            mode = rng.choice(['park'] * 6 + ['act:disconnect', 'act:send', 'act:sendData'])
+            arms.append([rng.randrange(ncon), rng.choice(STATES), mode])
+        # (one mode per notification)
+        seen, out = set(), []
+        for a in arms:
+            if (a[0], a[1]) not in seen:
+                seen.add((a[0], a[1]))
+                out.append(a)
+        return ['gate', out]
     for _ in range(n):
+        if held and rng.random() < 0.12:
+            ops.append(gate_op())
+            continue
         if made < ncon and (made == 0 or rng.random() < 0.25):
             origin = rng.choice(['direct', 'direct', 'back', 'incoming', 'incoming'])
             if monitor_only and (made == 0 or rng.random() < 0.4):
                 origin = 'api'
-            typF = rng.random() < 0.25 if origin != 'incoming' else 0
+            typF = rng.random() < 0.3 if origin != 'incoming' else 0
             if origin == 'incoming':
                 obf = int(rng.random() < 0.3)
             elif origin == 'back':
                 obf = rng.choice([0, 0, 1, 2, 2])
             else:
                 obf = rng.choice([0, 0, 0, 1, 2, 2, 3, 4])
-            ops.append(['new', origin, int(typF), int(rng.random() < 0.5), obf])
+            ops.append(['new', origin, int(typF), rng.choice(slows), obf])
             made += 1
             continue
-        if rng.random() < 0.06:
+        if rng.random() < 0.06 and made:
             b = rng.choice([None, None, ['incoming', 0, int(rng.random() < 0.5), int(rng.random() < 0.3)],
                             ['direct', int(rng.random() < 0.2), int(rng.random() < 0.5), 0]])
             ops.append(['net', 'disconnect'] + (b if b else []))
             if b:
                 made += 1
             continue
+        if not made:
+            continue
         name, arg = rng.choice(pool)
         i = rng.randrange(made)
+        if name == 'firstFrame' and arg == 'initP' and rng.random() < 0.3:
+            arg = 'initF'
         if name == 'burst':
             arg = _gen_burst(rng, monitor_only and rng.random() < 0.6)
         ops.append(['at', i, name] + ([arg] if arg is not None else []))
-    return {'kind': 'random', 'server': False, 'cfg': cfg, 'ops': ops}
+    if held:
+        ops += [['gate', []]] + [['at', i, 'release', s_] for _ in range(2) for i in range(made) for s_ in STATES]
+    return {'kind': 'random-held' if held else 'random', 'server': False, 'cfg': cfg, 'ops': ops}
 
 
 def _eval_case(case):
@@ -1506,6 +1940,29 @@ WITNESSES = [
     {'kind': 'witness:connect-back-both-ports-first-fails', 'server': False, 'cfg': {'obfuscate': 1},
      'ops': [['new', 'back', 0, 0, 2], ['at', 0, 'connectFail'], ['at', 0, 'connectOk', 'ok'], ['at', 0, 'frame', 1],
              ['at', 0, 'send', 'ok'], ['at', 0, 'eof']]},
+    # state listeners that suspend / act (replay inputs of fixes/C10-accepted-registered-when-reported.md,
+    # fixes/C10-connecting-notification-cancel.md; the class of seeds C10-i / C10-j2)
+    {'kind': 'witness:accepted-closed-inside-connected-notification', 'server': False,
+     'ops': [['gate', [[0, 'CONNECTED', 'act:disconnect']]], ['new', 'incoming', 0, 0, 0], ['at', 0, 'send', 'ok']]},
+    {'kind': 'witness:accepted-unregistered-while-connected-listener-suspended', 'server': False,
+     'ops': [['gate', [[0, 'CONNECTED', 'park']]], ['new', 'incoming', 0, 0, 0], ['at', 0, 'disconnect'],
+             ['at', 0, 'release', 'CONNECTED'], ['at', 0, 'send', 'ok']]},
+    {'kind': 'witness:connect-back-cancelled-inside-connecting-notification', 'server': False,
+     'ops': [['gate', [[0, 'CONNECTING', 'park']]], ['new', 'back', 0, 0, 0], ['at', 0, 'cancelAttempt'], ['gate', []],
+             ['at', 0, 'connectOk', 'ok'], ['at', 0, 'send', 'ok']]},
+    {'kind': 'witness:server-connect-cancelled-inside-connecting-notification', 'server': True,
+     'ops': [['gate', [[0, 'CONNECTING', 'park']]], ['new', 'server', 0, 0, 0], ['at', 0, 'cancelAttempt'], ['gate', []],
+             ['at', 0, 'restart'], ['at', 0, 'connectOk', 'ok']]},
+    {'kind': 'witness:connect-completes-while-closing-listener-suspended', 'server': False,
+     'ops': [['gate', [[0, 'CLOSING', 'park']]], ['new', 'direct', 0, 0, 0], ['at', 0, 'disconnect'],
+             ['at', 0, 'connectOk', 'ok'], ['at', 0, 'release', 'CLOSING'], ['gate', []], ['at', 0, 'release', 'CLOSING'],
+             ['at', 0, 'eof'], ['at', 0, 'send', 'ok']]},
+    {'kind': 'witness:stalled-peer-close-times-out-then-send-data', 'server': False,
+     'ops': [['new', 'direct', 1, 2, 0], ['at', 0, 'connectOk', 'ok'], ['at', 0, 'sendData', 'ok'], ['at', 0, 'disconnect'],
+             ['at', 0, 'closeDone', 'timeout'], ['at', 0, 'sendData', 'ok'], ['at', 0, 'recvData'], ['at', 0, 'unstall']]},
+    {'kind': 'witness:send-data-from-inside-closed-notification', 'server': False,
+     'ops': [['new', 'incoming', 0, 2, 0], ['at', 0, 'firstFrame', 'initF'], ['gate', [[0, 'CLOSED', 'act:sendData']]],
+             ['at', 0, 'disconnect'], ['at', 0, 'closeDone', 'timeout'], ['at', 0, 'unstall']]},
     {'kind': 'witness:looked-up-both-ports-first-fails', 'server': False, 'cfg': {'obfuscate': 1},
      'ops': [['new', 'direct', 0, 0, 2], ['at', 0, 'connectFail'], ['at', 0, 'connectOk', 'ok'], ['at', 0, 'frame', 1],
              ['at', 0, 'send', 'ok'], ['at', 0, 'eof']]},
@@ -1537,14 +1994,35 @@ class C10(Property):
             'of the running connect-back tasks + disconnect() on the server connection and every registered connection); '
             'plus random op sequences (6..22 ops over 1..3 connections, all of the above ops, 12 % monitor-only with '
             'create_peer_connection and bursts that mix calls and remote events) derived from VERIF_SEED; the quick tier runs '
-            'the core of the two added grids plus a quarter / a third of the rest rotated by the seed. The monitor keeps one '
+            'the core of the two added grids plus a quarter / a third of the rest rotated by the seed. '
+            'SUSPENDED STATE LISTENERS: an application listener of ConnectionStateChangedEvent, registered behind the recorder, '
+            'that suspends at (or calls disconnect / send_message / send_data from inside) the CONNECTING / CONNECTED / CLOSING '
+            '/ CLOSED notification of a connection: for every state a connection can be in (direct / connect-back P and F, '
+            'accepted before / after PeerInit / PeerPierceFirewall, server; opening, init write parked, established, send / '
+            'queued send / raw read / raw send parked) x every op that makes the library report a state there x which '
+            'notification(s) are held x one of 44 events delivered meanwhile (connect completion / failure / timeout, '
+            'cancellation, first frame, frames, EOF, reset, timers, disconnect calls, wait_closed returning / timing out / '
+            'raising, sends, queued sends, raw calls, Network.disconnect, restart) x release x probes (59 700 scenarios; quick: '
+            'core + 1/16 by seed); 35 % of the random sequences arm / disarm such listeners at random and release them at '
+            'random. RAW DATA PATHS of file connections (send_data, receive_data, send_file, receive_file, receive_until_eof; '
+            'raw bytes from the peer) before / while / after every way of closing x wait_closed {returns, suspends and then '
+            'returns / runs into the 5 s timeout / raises, with a peer that has stopped reading so that close() leaves the '
+            'transport alive and writable, raises at once} (5 400 scenarios; quick: the modelled core + 1/4 by seed). '
+            'Modelled: everything but stalled / raising transports, send_file / receive_file / receive_until_eof, a server '
+            'reconnect while a CLOSED listener of the previous life is still busy, create_peer_connection. The monitor keeps one '
             'track per connection OBJECT (also objects the scenario did not ask for). A case is non-trivial when a connection was reported CLOSED and at least 3 ops were executed; '
             'distinct = distinct executed op list')
     assumptions = [
         'each environment completion (connect result, bytes, EOF/reset, timer, drain/wait_closed return, API call) is '
         'processed to quiescence before the next one; n concurrent disconnect() calls issued in one loop iteration are '
         'compared with n sequential calls of the model',
-        'EventBus listeners of the state/message events do not suspend',
+        'listeners of ConnectionStateChangedEvent may suspend or call back into the connection (modelled: every state '
+        'notification is a step of its own); listeners of MessageReceivedEvent / PeerInitializedEvent do not suspend',
+        'bytes / EOF / reset of the peer are delivered when somebody is parked in a read (or in drain) of that socket: input '
+        'that arrives while nobody reads (e.g. while the accept handler waits for a CONNECTED listener) is noticed at the '
+        'next read and is not scheduled before it',
+        'a raw send made after CLOSED is judged by the bytes that reach the transport (a call that returns without writing '
+        'is what send_message does, too)',
         'calls made in one loop iteration (burst) are compared with the same calls one after the other; modelled bursts '
         'are sends / queued sends first, then disconnect calls (a queue_message call made BEHIND a disconnect call of the '
         'same iteration is cancelled before its first step instead of being refused: monitor-only bursts)',
@@ -1554,8 +2032,10 @@ class C10(Property):
         'so EOF/reset/frames are only delivered to a parked reader',
         'the server connection stays connected while a connect-back attempt reports CannotConnect',
     ]
-    modelled = ('Connection.set_state; ListeningConnection.accept; DataConnection.connect/disconnect, _read/_send error '
-                'arms, send_message, queue_message / _cancel_queued_messages, _message_reader_loop; Network registry append/remove sites, _make_direct_connection, '
+    modelled = ('Connection.set_state incl. the listeners it awaits (each notification a step: noteA / noteC / parkA / parkC); '
+                'ListeningConnection.accept; DataConnection.connect/disconnect, _read/_send error '
+                'arms, send_message, queue_message / _cancel_queued_messages, _message_reader_loop, send_data / receive_data; '
+                'Network registry append/remove sites (_on_peer_connection_state_changed), _make_direct_connection, '
                 '_handle_connect_to_peer, on_peer_accepted, _finalize_peer_connection. Exercised only: select_port / '
                 '_get_peer_address (which port is dialled does not change the life cycle), create_peer_connection in both '
                 'modes (monitor only; model in C11), obfuscation, '
@@ -1563,7 +2043,7 @@ class C10(Property):
 
     def _cases(self, seed, tier, widen):
         rng = random.Random(f'C10-{seed}')
-        n = (4000 if tier == "quick" else 80000) * widen
+        n = (4000 if tier == "quick" else 60000) * widen
         # the two added grids are large: the quick tier always runs their core and a quarter / a third of the rest,
         # rotated by the seed (seeds 0..3 cover all of it); thorough and the widened search run everything
         full = tier != 'quick' or widen > 1
@@ -1571,7 +2051,12 @@ class C10(Property):
               if full or _queue_core(c) or k % 4 == seed % 4]
         cg = [c for k, c in enumerate(_cfg_grid())
               if full or not c['kind'].startswith('api:') or k % 3 == seed % 3]
-        cases = list(WITNESSES) + _grid() + qg + cg + [_gen_random(rng) for _ in range(n)]
+        # suspended listeners / raw data paths: the core (acting listeners, the directed meanwhile-events) and a
+        # sixteenth / a quarter of the rest per quick run
+        hg = [c for k, c in enumerate(_held_grid())
+              if full or ':timeout-then:' in c['kind'] or (_held_core(c) and k % 4 == seed % 4) or k % 16 == seed % 16]
+        rg = [c for k, c in enumerate(_raw_grid()) if full or c['kind'].endswith(':core') or k % 4 == seed % 4]
+        cases = list(WITNESSES) + _grid() + qg + cg + hg + rg + [_gen_random(rng) for _ in range(n)]
         return cases
 
     def correspondence(self, seed, tier, model_ok, widen=1):
@@ -1585,21 +2070,20 @@ class C10(Property):
         if model_ok:
             lines, spans = [], []
             for c, io in zip(cases, impl):
-                if (c.get('cfg') or {}).get('monitor_only'):
+                groups = _model_groups(c, io)
+                if groups is None:
                     spans.append(None)        # real code + monitor only (no model of these ops)
                     continue
-                ls = _model_lines(io['executed'])
-                flat = '\n'.join(ls).split('\n')
-                groups = []
                 pos = len(lines) + 1
-                for l in ls[1:]:
-                    k = l.count('\n') + 1
-                    groups.append((pos, k))
-                    pos += k
-                spans.append(groups)
-                lines += flat
+                sp = []
+                lines.append('reset')
+                for g in groups:
+                    sp.append((pos, len(g)))
+                    pos += len(g)
+                    lines += g
+                spans.append(sp)
             out = common.run_driver(self.driver_file, lines)
-            model = [None if groups is None else [_merge_lines(out[a:a + k]) for a, k in groups] for groups in spans]
+            model = [None if sp is None else [(_merge_lines(out[a:a + k]) if k else None) for a, k in sp] for sp in spans]
         else:
             res.model_available = False
         res.disagreements += site_breaks(cases, impl)
@@ -1612,13 +2096,23 @@ class C10(Property):
             res.count('ops-skipped(not enabled)', len(io['skipped']))
             for op in io['executed']:
                 res.count('op:' + ('net-disconnect' + ('+new' if len(op) > 3 else '') if op[0] == 'net'
-                                   else f'new-{op[1]}-ports{op[4]}' if op[0] == 'new' else op[2]))
+                                   else f'new-{op[1]}-ports{op[4]}' if op[0] == 'new'
+                                   else 'gate' if op[0] == 'gate'
+                                   else op[2] + (':' + op[3] if op[2] == 'release' else '')))
+                if op[0] == 'gate':
+                    for g in op[1]:
+                        res.count(f'armed:{g[1]}:{g[2]}')
+                if op[0] == 'new':
+                    res.count(f'wait_closed:{("returns", "suspends", "stalled-peer", "raises")[op[3]]}')
                 if op[0] == 'at' and op[2] == 'burst':
                     res.count('burst:' + '+'.join(sub[0] for sub in op[3]))
             for l in io['lines']:
                 for tok in l.split(' ')[0][3:].split(','):
                     if tok:
                         res.count('event:' + tok)
+            for _n, _lab, state, kind in io.get('gate', []):
+                if kind != 'pass':
+                    res.count(f'listener:{state}:{kind}')
             closed = any('CLOSED' in l.split(' ')[0] for l in io['lines'])
             if closed and len(io['executed']) >= 3:
                 res.nontrivial_keys.add(common.sha(io['executed']))
@@ -1626,8 +2120,9 @@ class C10(Property):
                 res.count('monitor-only-cases')
             elif model is not None:
                 res.traces_validated += 1
-                if model[i] != io['lines']:
-                    k = next((j for j, (a, b) in enumerate(zip(model[i], io['lines'])) if a != b),
+                # (an op that is no step of the model — arming the listener — has no line to compare)
+                if any(a is not None and a != b for a, b in zip(model[i], io['lines'])) or len(model[i]) != len(io['lines']):
+                    k = next((j for j, (a, b) in enumerate(zip(model[i], io['lines'])) if a is not None and a != b),
                              min(len(model[i]), len(io['lines'])))
                     res.disagreements.append(Disagreement(
                         {'kind': c['kind'], 'server': c.get('server', False), 'ops': io['executed'],
